@@ -336,6 +336,9 @@ func (nd *NodeDiff) LeftNode() Node {
 		n = nd.Right
 	}
 
+	// The nodes that were compared must stay as they are.
+	n = copyWithoutChildren(n)
+
 	for _, child := range nd.Children {
 		n.AddNode(child.LeftNode())
 	}
@@ -353,6 +356,9 @@ func (nd *NodeDiff) RightNode() Node {
 		n = nd.Left
 	}
 
+	// The nodes that were compared must stay as they are.
+	n = copyWithoutChildren(n)
+
 	for _, child := range nd.Children {
 		n.AddNode(child.RightNode())
 	}
@@ -366,4 +372,28 @@ func (nd *NodeDiff) Tag() Tag {
 	}
 
 	return nd.Right.Tag()
+}
+
+// copyWithoutChildren returns a new node of the same kind with the same tag,
+// value and pointer, but none of the children. The nodes that cannot exist on
+// their own stay with the document or family of the original.
+func copyWithoutChildren(node Node) Node {
+	switch n := node.(type) {
+	case *IndividualNode:
+		return newIndividualNode(n.document, n.pointer)
+
+	case *FamilyNode:
+		return newFamilyNode(n.document, n.pointer)
+
+	case *HusbandNode:
+		return newHusbandNode(n.family, n.value)
+
+	case *WifeNode:
+		return newWifeNode(n.family, n.value)
+
+	case *ChildNode:
+		return newChildNode(n.family, n.value)
+	}
+
+	return node.ShallowCopy()
 }
